@@ -7,7 +7,7 @@ import props, engines
 ALL = ["C%02d" % i for i in range(1, 21)]
 READY = set(open(os.path.join(V, "lib", "ready.txt")).read().split())
 TRUST = ("Coq 8.16.1 kernel; hand-written Gallina model tied to /repo by (a) a differential correspondence check on exhaustive small scopes "
-         "and seeded random traces (harness compiled from /repo's working tree with ASan/UBSan) and (b) constants/macros/guards regenerated from the C source "
+         "and seeded random traces (harness compiled from /repo's working tree with ASan/UBSan) and (b) constants/macros regenerated, and guard conditions / leaf functions re-translated and machine-proved equal to the model's terms (Generated/SrcEq_<engine>.v), from the C source "
          "by gen/extract.py on every run; extraction with ExtrOcamlBasic only; see DESIGN.md section 5")
 checks = []
 for pid in ALL:
